@@ -8,6 +8,7 @@ import (
 	"fmt"
 	"io"
 	"net"
+	"os"
 	"sync"
 	"time"
 )
@@ -53,10 +54,17 @@ const (
 	FaultTimeout
 	FaultShort // writes: accept about half, then error. reads: same as FaultErr
 	FaultEOF
+	// FaultNoDeadline: the error wraps os.ErrNoDeadline in a *net.OpError (a transport without
+	// deadline support says so this way)
+	FaultNoDeadline
+	// FaultShortWrapped: like FaultShort, the error wraps io.ErrShortWrite
+	FaultShortWrapped
+	// FaultShortTimeout: like FaultShort, the error is a timeout (a stalled peer)
+	FaultShortTimeout
 )
 
 func (k FaultKind) String() string {
-	return [...]string{"none", "error", "timeout", "short", "eof"}[k]
+	return [...]string{"none", "error", "timeout", "short", "eof", "error wrapping os.ErrNoDeadline", "short write, error wrapping io.ErrShortWrite", "short write, then timeout"}[k]
 }
 
 // TimeoutErr is a net.Error with Timeout() == true.
@@ -74,10 +82,14 @@ var ErrClosed = errors.New("xport: use of closed connection")
 
 func (k FaultKind) Err() error {
 	switch k {
-	case FaultTimeout:
+	case FaultTimeout, FaultShortTimeout:
 		return &TimeoutErr{"xport: injected timeout"}
 	case FaultEOF:
 		return io.EOF
+	case FaultNoDeadline:
+		return &net.OpError{Op: "set", Net: "xport", Err: os.ErrNoDeadline}
+	case FaultShortWrapped:
+		return &net.OpError{Op: "write", Net: "xport", Err: io.ErrShortWrite}
 	default:
 		return ErrInjected
 	}
@@ -314,7 +326,7 @@ func (c *Conn) Write(p []byte) (int, error) {
 	if fk := c.fault(OpWrite); fk != FaultNone {
 		err := fk.Err()
 		n := 0
-		if fk == FaultShort {
+		if fk == FaultShort || fk == FaultShortWrapped || fk == FaultShortTimeout {
 			n = len(p) / 2
 			c.out = append(c.out, p[:n]...)
 		}
